@@ -156,6 +156,16 @@ def explore(ctx):
                                   classes=["identity", "scale", "shear", "mirror_x", "general_small"])
         for k, g in enumerate(desc["glyphs"]):
             g["unicodes"] = [0x61 + k]
+        # a pure composite whose components carry identifiers with TrueType flags in the glyph's public.objectLibs (round the offset
+        # to the grid: no; use my metrics: yes): the instruction compiler READS them from the source glyph
+        plain_ = next((g["name"] for g in desc["glyphs"] if g["contours"] and not g["components"]), None)
+        if plain_:
+            one_ = (Fr(1), Fr(0), Fr(0), Fr(1))
+            desc["glyphs"].append({"name": "comp.flags", "unicodes": [], "width": Fr(500), "contours": [], "anchors": [],
+                                   "components": [(plain_, one_ + (Fr(0), Fr(0))), (plain_, one_ + (Fr(300), Fr(10)))],
+                                   "component_ids": ["CID-1", "CID-2"],
+                                   "lib": {"public.objectLibs": {"CID-1": {"public.truetype.useMyMetrics": True},
+                                                                 "CID-2": {"public.truetype.roundOffsetToGrid": False}}}})
         # (a glyph with nothing in it but its advance: a filter that scales advances edits it like any other)
         desc["glyphs"].append({"name": "space", "unicodes": [0x20], "width": Fr(300), "contours": [], "components": [], "anchors": []})
         names = [g["name"] for g in desc["glyphs"]]
